@@ -3,14 +3,63 @@ package rules
 import (
 	"go/token"
 	"go/types"
+	"strings"
 
 	"golang.org/x/tools/go/ssa"
 
 	"olacheck/an"
+	"olacheck/core"
 )
 
 // variadicElems returns the values stored into the backing array of a variadic argument built at the
 // call site (nil, false when the slice comes from elsewhere).
+// variadicElemsOrdered: the variadic arguments in argument order (by the constant index each was stored at).
+func variadicElemsOrdered(v ssa.Value) ([]ssa.Value, bool) {
+	if c, ok := v.(*ssa.Const); ok && c.Value == nil {
+		return nil, true
+	}
+	sl, ok := v.(*ssa.Slice)
+	if !ok {
+		return nil, false
+	}
+	al, ok := sl.X.(*ssa.Alloc)
+	if !ok || al.Referrers() == nil {
+		return nil, false
+	}
+	byIdx := map[int64]ssa.Value{}
+	max := int64(-1)
+	for _, r := range *al.Referrers() {
+		ia, ok := r.(*ssa.IndexAddr)
+		if !ok || ia.Referrers() == nil {
+			continue
+		}
+		k, isK := an.ConstInt(ia.Index)
+		if !isK {
+			return nil, false
+		}
+		for _, rr := range *ia.Referrers() {
+			if st, ok := rr.(*ssa.Store); ok && st.Addr == ia {
+				if _, dup := byIdx[k]; dup {
+					return nil, false
+				}
+				byIdx[k] = st.Val
+				if k > max {
+					max = k
+				}
+			}
+		}
+	}
+	out := make([]ssa.Value, 0, len(byIdx))
+	for i := int64(0); i <= max; i++ {
+		v, ok := byIdx[i]
+		if !ok {
+			return nil, false
+		}
+		out = append(out, v)
+	}
+	return out, true
+}
+
 func variadicElems(v ssa.Value) ([]ssa.Value, bool) {
 	if c, ok := v.(*ssa.Const); ok && c.Value == nil {
 		return nil, true // no variadic arguments
@@ -442,4 +491,186 @@ func setInserts(m ssa.Value) []setInsert {
 		}
 	}
 	return out
+}
+
+// holdsOnAllPaths: on every feasible path from the entry of fn to the instruction at, the most recent branch on a
+// condition test recognises came out the way that makes the fact hold (test says whether the fact holds when the
+// condition is true).  Paths are enumerated with (a) the outcomes of conditions branched on more than once kept
+// consistent — the same SSA value cannot be true at one branch and false at a later one, which decides tag-less
+// switches such as `case a && b: … case a: …` — and (b) a condition that is a φ of the branching block resolved to the
+// operand of the predecessor the path came through (the form go/ssa gives a materialised `a && b`).
+func holdsOnAllPaths(fn *ssa.Function, at ssa.Instruction, test func(cond ssa.Value) (holdsWhenTrue bool, ok bool)) bool {
+	bases := func(v ssa.Value) []ssa.Value {
+		base, _ := an.CondBase(v)
+		out := []ssa.Value{base}
+		if phi, ok := base.(*ssa.Phi); ok {
+			for _, e := range phi.Edges {
+				b2, _ := an.CondBase(e)
+				out = append(out, b2)
+			}
+		}
+		return out
+	}
+	count := map[ssa.Value]int{}
+	var order []ssa.Value
+	for _, b := range fn.Blocks {
+		if ifi := an.BlockIf(b); ifi != nil {
+			for _, base := range bases(ifi.Cond) {
+				if _, isC := base.(*ssa.Const); isC {
+					continue
+				}
+				if count[base] == 0 {
+					order = append(order, base)
+				}
+				count[base]++
+			}
+		}
+	}
+	var tracked []ssa.Value
+	for _, base := range order {
+		if count[base] > 1 && len(tracked) < 6 {
+			tracked = append(tracked, base)
+		}
+	}
+	type ps struct {
+		holds bool
+		pred  int32   // index of the block the path entered the current block from (-1 at the entry)
+		conds [6]int8 // 0 unknown, 1 false, 2 true
+	}
+	ok := true
+	an.Paths(an.PathSpec[ps]{Fn: fn, Init: ps{pred: -1},
+		Instr: func(s ps, in ssa.Instruction) []ps {
+			if in == at && !s.holds {
+				ok = false
+			}
+			return []ps{s}
+		},
+		Edge: func(s ps, from *ssa.BasicBlock, succ int) (ps, bool) {
+			came := s.pred
+			s.pred = int32(from.Index)
+			ifi := an.BlockIf(from)
+			if ifi == nil {
+				return s, true
+			}
+			base, neg := an.CondBase(ifi.Cond)
+			for depth := 0; depth < 3; depth++ {
+				phi, isPhi := base.(*ssa.Phi)
+				if !isPhi || phi.Block() != from || came < 0 {
+					break
+				}
+				resolved := false
+				for i, p := range from.Preds {
+					if int32(p.Index) == came && i < len(phi.Edges) {
+						b2, n2 := an.CondBase(phi.Edges[i])
+						base, neg = b2, neg != n2
+						resolved = true
+						break
+					}
+				}
+				if !resolved {
+					break
+				}
+			}
+			taken := (succ == 0) != neg // the truth value of base on this edge
+			if k, isC := an.ConstBool(base); isC && k != taken {
+				return s, false
+			}
+			for i, t := range tracked {
+				if t != base {
+					continue
+				}
+				val := int8(1)
+				if taken {
+					val = 2
+				}
+				if s.conds[i] != 0 && s.conds[i] != val {
+					return s, false // contradicts an earlier branch on the same value
+				}
+				s.conds[i] = val
+			}
+			if hw, is := test(base); is {
+				s.holds = taken == hw
+			}
+			return s, true
+		}})
+	return ok
+}
+
+// originsAcross: the values v can come from, followed out of the frame: a parameter stands for the arguments of every
+// call of its function (statically resolved calls of the analysed module), the result of a helper of the module for what
+// each of its non-error returns hands out.  complete is false when some origin could not be followed to the end
+// (depth, a call through a function value, a function nobody calls).
+func originsAcross(c *core.Ctx, v ssa.Value, depth int) (leaves []ssa.Value, complete bool) {
+	complete = true
+	if depth > 3 {
+		return []ssa.Value{v}, false
+	}
+	for _, o := range append([]ssa.Value{an.Origin(v)}, an.Origins(v)...) {
+		if _, isPhi := o.(*ssa.Phi); isPhi {
+			continue
+		}
+		switch x := o.(type) {
+		case *ssa.Parameter:
+			fn := x.Parent()
+			idx := -1
+			for i, p := range fn.Params {
+				if p == x {
+					idx = i
+				}
+			}
+			sites := c.P.Callers(fn)
+			if idx < 0 || len(sites) == 0 || !strings.HasPrefix(core.FuncPkgPath(fn), c.P.Module) {
+				leaves = append(leaves, o)
+				complete = false
+				continue
+			}
+			for _, site := range sites {
+				if site.Common().StaticCallee() != fn || idx >= len(site.Common().Args) {
+					leaves = append(leaves, o)
+					complete = false
+					continue
+				}
+				l, ok := originsAcross(c, site.Common().Args[idx], depth+1)
+				leaves = append(leaves, l...)
+				complete = complete && ok
+			}
+		default:
+			if hr := an.HelperReturns(o, func(h *ssa.Function) bool { return strings.HasPrefix(core.FuncPkgPath(h), c.P.Module) }); len(hr) > 0 {
+				for _, r := range hr {
+					if an.IsNilConst(an.Strip(r.Val)) {
+						continue
+					}
+					l, ok := originsAcross(c, r.Val, depth+1)
+					leaves = append(leaves, l...)
+					complete = complete && ok
+				}
+				continue
+			}
+			leaves = append(leaves, o)
+		}
+	}
+	// de-duplicate
+	seen := map[ssa.Value]bool{}
+	var out []ssa.Value
+	for _, l := range leaves {
+		if !seen[l] {
+			seen[l] = true
+			out = append(out, l)
+		}
+	}
+	return out, complete
+}
+
+// isCreateTempFile: v is, on every way it can be produced (across helper frames), the file result of os.CreateTemp.
+func isCreateTempFile(c *core.Ctx, v ssa.Value) bool {
+	leaves, complete := originsAcross(c, v, 0)
+	if !complete || len(leaves) == 0 {
+		return false
+	}
+	for _, l := range leaves {
+		if ct, i := an.CallOf(l); ct == nil || i != 0 || !an.IsFunc(ct, "os", "CreateTemp") {
+			return false
+		}
+	}
+	return true
 }
